@@ -151,11 +151,12 @@ def _traverse_errors(doc, nodes, utils, B, S, errs):
         errs.append(('traverse-source', 'include_source does not yield the source first'))
     elif collections.Counter((id(r.node), id(r.parent) if r.parent is not None else None, r.depth) for r in got_src[1:]) != own:
         errs.append(('traverse-source', 'include_source changes the remaining results'))
-    for klass in (B.Paragraph, S.RawText, S.Link):
+    # single classes and tuples, also tuples that mix block and span classes
+    for klass in (B.Paragraph, S.RawText, S.Link, (B.Heading, S.Emphasis), (B.Paragraph, S.RawText), (B.List, S.Link, S.Strong), (S.Emphasis, S.Strong)):
         want = collections.Counter((id(n), id(p), d) for n, p, d in nodes if p is not None and isinstance(n, klass))
         gotk = collections.Counter((id(r.node), id(r.parent), r.depth) for r in utils.traverse(doc, klass=klass))
         if want != gotk:
-            errs.append(('traverse-klass', 'klass=%s: %d vs own %d' % (klass.__name__, sum(gotk.values()), sum(want.values()))))
+            errs.append(('traverse-klass', 'klass=%s: %d vs own %d' % (getattr(klass, '__name__', None) or '+'.join(k.__name__ for k in klass), sum(gotk.values()), sum(want.values()))))
     for limit in (1, 2, 3):
         want = collections.Counter((id(n), id(p), d) for n, p, d in nodes if p is not None and d <= limit)
         gotd = collections.Counter((id(r.node), id(r.parent), r.depth) for r in utils.traverse(doc, depth=limit))
